@@ -406,6 +406,10 @@ pub fn run() {
         let d = gen_gadget_pairs(r, PhasePool::CliffordHeavy, 0.0);
         check_desc("gadget-pairs", i, r, &d);
     });
+    par_cases("pi-gadgets", n_rand / 2, move |r, i| {
+        let d = gen_pi_gadgets(r);
+        check_desc("pi-gadgets", i, r, &d);
+    });
     par_cases("rule-walks", n_rand * 2, move |r, i| {
         let d = match r.below(4) {
             0 => gen_random(r, &DiagParams { max_spiders: ms + 2, max_bnd: 3, pool: PhasePool::CliffordHeavy, graph_like: false, bare_wires: true, var_prob: 0.0 }),
